@@ -237,6 +237,7 @@ class Spec:
     xshape: Any = None      # list of (rows, cols) partitioning nx into declared states; None => scalars
     ode_broadcast: Any = None   # {state group index: E}: that (vector valued) state is given ONE scalar right-hand side (repeated); spec.ode lists it per element
     zshape: Any = None      # list of sizes partitioning nz into declared (vector valued) algebraic variables; None => scalars
+    shared_freetime: bool = False   # t0 and T (both free) are declared through ONE FreeTime object (same guess)
     initial: Any = field(default_factory=list)   # list of (target E leaf, value) for set_initial
     note: str = ''
 
